@@ -12,4 +12,4 @@ for i in "$@"; do
   timeout 1500 python3 tools/check.py $i --tier quick 2>&1 | grep -E "^(VIOLATION|OK|KNOWN)" | sed "s/^/[$i] /"
 done
 git -C /repo checkout -- .
-git -C /verif checkout -- evidence 2>/dev/null
+git -C /verif checkout -- evidence lean/ALock/Generated 2>/dev/null
